@@ -899,6 +899,191 @@ func c20EntityCheck(run *Run, e *c20Env, r *rand.Rand) {
 	run.mu.Unlock()
 }
 
+// ---- @requires fields of entities: each field is answered by its own RPC and merged back by position --------------------------------
+
+type c20Req struct {
+	field string // the @requires field
+	sel   string // how it is selected (with a sub-selection for object results)
+	req   string // the @requires selection set
+}
+
+var c20Requires = []c20Req{
+	{"tagSummary", "tagSummary", "tags"},
+	{"optionalTagSummary", "optionalTagSummary", "optionalTags"},
+	{"metadataScore", "metadataScore", "metadata { capacity zone }"},
+	{"processedTags", "processedTags", "tags"},
+	{"optionalProcessedTags", "optionalProcessedTags", "optionalTags"},
+	{"kindSummary", "kindSummary", "storageKind"},
+	{"stockHealthScore", "stockHealthScore", "itemCount restockData { lastRestockDate }"},
+	{"processedMetadata", "processedMetadata { capacity zone }", "metadata { capacity zone priority }"},
+	{"optionalProcessedMetadata", "optionalProcessedMetadata { capacity zone }", "metadata { capacity zone }"},
+	{"processedMetadataHistory", "processedMetadataHistory { capacity zone }", "metadataHistory { capacity zone }"},
+}
+
+func (e *c20Env) loadRequires(fields []c20Req, variables string) (ents []any, raw string, err error) {
+	defer func() {
+		if r := recover(); r != nil {
+			err = fmt.Errorf("panic: %v", r)
+		}
+	}()
+	var sel []string
+	fc := plan.FederationFieldConfigurations{{TypeName: "Storage", SelectionSet: "id"}, {TypeName: "Product", SelectionSet: "id"}}
+	for _, f := range fields {
+		sel = append(sel, f.sel)
+		fc = append(fc, plan.FederationFieldConfiguration{TypeName: "Storage", FieldName: f.field, SelectionSet: f.req})
+	}
+	// both entity types are selected, so representations of both are legitimate in one request
+	query := `query($representations: [_Any!]!) { _entities(representations: $representations) { ... on Product { __typename id name } ... on Storage { __typename id ` + strings.Join(sel, " ") + ` } } }`
+	doc, rep := astparser.ParseGraphqlDocumentString(query)
+	if rep.HasErrors() {
+		return nil, "", fmt.Errorf("parse: %s", rep.Error())
+	}
+	ds, err := grpcdatasource.NewDataSource(grpcdatasource.NewGRPCTransport(e.conn), grpcdatasource.DataSourceConfig{
+		Operation: &doc, Definition: e.def, SubgraphName: "Products", Compiler: e.compiler, Mapping: e.mapping, FederationConfigs: fc})
+	if err != nil {
+		return nil, "", fmt.Errorf("plan: %w", err)
+	}
+	out, err := ds.Load(context.Background(), nil, []byte(fmt.Sprintf(`{"query":%q,"body":{"variables":%s}}`, query, variables)))
+	if err != nil {
+		return nil, string(out), err
+	}
+	var resp struct {
+		Data struct {
+			Entities []any `json:"_entities"`
+		} `json:"data"`
+		Errors []any `json:"errors"`
+	}
+	dec := json.NewDecoder(strings.NewReader(string(out)))
+	dec.UseNumber()
+	if err := dec.Decode(&resp); err != nil {
+		return nil, string(out), err
+	}
+	if len(resp.Errors) > 0 {
+		return nil, string(out), fmt.Errorf("errors: %s", truncate(jsonStr(resp.Errors), 300))
+	}
+	return resp.Data.Entities, string(out), nil
+}
+
+func c20RequiresCheck(run *Run, e *c20Env, r *rand.Rand) {
+	n := 1 + r.Intn(4)
+	var reps []string
+	var kinds []string
+	for i := 0; i < n; i++ {
+		if r.Intn(9) == 0 {
+			kinds = append(kinds, "Product")
+			reps = append(reps, fmt.Sprintf(`{"__typename":"Product","id":"%d"}`, 1+r.Intn(9)))
+			continue
+		}
+		kinds = append(kinds, "Storage")
+		tags := []string{}
+		for k := r.Intn(4); k > 0; k-- {
+			tags = append(tags, fmt.Sprintf("%q", pick(r, []string{"a", "bb", "ccc", "fragile", "cold"})))
+		}
+		opt := "null"
+		if r.Intn(2) == 0 {
+			opt = `["x","yy"]`
+		}
+		hist := []string{}
+		for k := r.Intn(3); k > 0; k-- {
+			hist = append(hist, fmt.Sprintf(`{"capacity":%d,"zone":"h%d"}`, 10*k, k))
+		}
+		reps = append(reps, fmt.Sprintf(`{"__typename":"Storage","id":"%d","tags":[%s],"optionalTags":%s,"metadata":{"capacity":%d,"zone":"z%d","priority":%d},"metadataHistory":[%s],"storageKind":"%s","itemCount":%d,"restockData":{"lastRestockDate":"2024-0%d-01"}}`,
+			1+r.Intn(9), strings.Join(tags, ","), opt, 10+r.Intn(90), r.Intn(4), 1+r.Intn(3), strings.Join(hist, ","), pick(r, []string{"ELECTRONICS", "FURNITURE", "BOOK", "OTHER"}), r.Intn(50), 1+r.Intn(9)))
+	}
+	variables := `{"representations":[` + strings.Join(reps, ",") + `]}`
+	perm := r.Perm(len(c20Requires))
+	k := 2 + r.Intn(3)
+	var chosen []c20Req
+	for _, i := range perm[:k] {
+		chosen = append(chosen, c20Requires[i])
+	}
+	in := map[string]any{"requires": true, "representations": json.RawMessage("[" + strings.Join(reps, ",") + "]"), "fields": chosen2names(chosen)}
+	full, rawFull, err := e.loadRequires(chosen, variables)
+	if err != nil {
+		if strings.Contains(err.Error(), "CategoryKind") || strings.Contains(err.Error(), "enum") {
+			run.Feat("requires:enum_value_not_mapped")
+			return
+		}
+		run.Violate(Violation{Kind: "oracle", Clause: "requires_answer", Input: in, Impl: rawFull, Detail: fmt.Sprintf("the lookup with fields %v fails: %v", chosen2names(chosen), err)}, c20RequiresMixedKnown(kinds, err))
+		return
+	}
+	if len(full) != n {
+		run.Violate(Violation{Kind: "oracle", Clause: "entities_positional", Input: in, Impl: rawFull, Detail: fmt.Sprintf("%d representations, %d entities: %s", n, len(full), truncate(rawFull, 500))}, "")
+		return
+	}
+	for i, ent := range full {
+		m, _ := ent.(map[string]any)
+		switch {
+		case m != nil && m["__typename"] == kinds[i] && fmt.Sprint(m["id"]) == c20RepID(reps[i]):
+		default:
+			run.Violate(Violation{Kind: "oracle", Clause: "entities_positional", Input: in, Impl: rawFull, Detail: fmt.Sprintf("entity %d answers a %s representation (%s) with %s", i, kinds[i], reps[i], truncate(jsonStr(ent), 200))}, "")
+			return
+		}
+	}
+	// every field alone, and the same fields in another order, must give the same value at every position
+	alts := [][]c20Req{}
+	for _, f := range chosen {
+		alts = append(alts, []c20Req{f})
+	}
+	rev := append([]c20Req{}, chosen...)
+	for i, j := 0, len(rev)-1; i < j; i, j = i+1, j-1 {
+		rev[i], rev[j] = rev[j], rev[i]
+	}
+	alts = append(alts, rev)
+	for _, alt := range alts {
+		sub, rawSub, err := e.loadRequires(alt, variables)
+		in2 := map[string]any{"requires": true, "representations": in["representations"], "fields": chosen2names(alt)}
+		if err != nil {
+			run.Violate(Violation{Kind: "oracle", Clause: "requires_answer", Input: in2, Impl: rawSub, Detail: fmt.Sprintf("the lookup with fields %v fails (with %v it answers): %v", chosen2names(alt), chosen2names(chosen), err)}, c20RequiresMixedKnown(kinds, err))
+			return
+		}
+		ok := len(sub) == n
+		for i := 0; ok && i < n; i++ {
+			fm, _ := full[i].(map[string]any)
+			sm, _ := sub[i].(map[string]any)
+			if (fm == nil) != (sm == nil) {
+				ok = false
+				break
+			}
+			for _, f := range alt {
+				if fm != nil && !fedJSONEqual(fm[f.field], sm[f.field]) {
+					ok = false
+				}
+			}
+		}
+		if !ok {
+			run.Violate(Violation{Kind: "oracle", Clause: "requires_stable_under_subset_selection", Input: in2, Impl: rawSub, Model: rawFull,
+				Detail: fmt.Sprintf("with fields %v the lookup answers %s; with fields %v %s: a field's value must not depend on which other fields are selected", chosen2names(alt), truncate(rawSub, 600), chosen2names(chosen), truncate(rawFull, 600))}, "")
+			return
+		}
+	}
+	run.Feat("requires_lookup")
+	run.mu.Lock()
+	run.TracesVsImpl++
+	run.mu.Unlock()
+}
+
+// guard of the open finding: the request of a @requires call is built from EVERY representation, also from those of other
+// entity types (which do not carry the required fields) — only when a representation of another type than Storage is present, and only for this error
+func c20RequiresMixedKnown(kinds []string, err error) string {
+	mixed := false
+	for _, k := range kinds {
+		mixed = mixed || k != "Storage" // the type whose @requires fields are selected
+	}
+	if mixed && err != nil && strings.Contains(err.Error(), "is required but has no value") {
+		return "C20-requires-call-built-from-representations-of-other-types"
+	}
+	return ""
+}
+
+func chosen2names(fs []c20Req) []string {
+	var out []string
+	for _, f := range fs {
+		out = append(out, f.field)
+	}
+	return out
+}
+
 func c20RepID(rep string) string {
 	var m map[string]any
 	_ = json.Unmarshal([]byte(rep), &m)
@@ -1017,6 +1202,9 @@ func runC20(run *Run, replay string) Spec {
 				}
 				if k%10 == 5 {
 					c20EntityCheck(run, e, r)
+				}
+				if k%10 == 8 {
+					c20RequiresCheck(run, e, r)
 				}
 				run.SetCurrent(w, c)
 				c20Check(run, e, c)
